@@ -45,7 +45,10 @@ Definition init (c : cfg) : st :=
   {| cache := lru_empty (c_cap c); store := []; next_ver := 1%N; fail_next := false |}.
 
 Inductive op :=
-| Load (name : str) (ns : option str) (g : N) (async : bool)
+| Load (name : str) (ns : option str) (g : N) (async : bool) (via : bool)
+    (* via = true: the template is loaded from inside a render (include / render /
+       extends pass the active render context): the caller's globals are those of
+       the including template, and a cache hit does not re-bind the cached object *)
 | Modify (key : str) (content : N)
 | Delete (key : str)
 | FailNext.
@@ -103,7 +106,7 @@ Definition with_cache (s : st) (ch : lru tmpl) (fn : bool) : st :=
 
 (** load / load_async with _check_cache / _check_cache_async inlined. *)
 Definition cached_load (c : cfg) (s : st) (name : str) (ns : option str)
-  (g : N) (async : bool) : obs * st :=
+  (g : N) (async : bool) (rebind : bool) : obs * st :=
   let ck := cache_key c name ns in
   match lru_get (cache s) ck with
   | None =>
@@ -123,12 +126,15 @@ Definition cached_load (c : cfg) (s : st) (name : str) (ns : option str)
         (* the cached object is re-bound and returned: the cache holds the
            same object, so the binding is visible there too *)
         (Loaded (t_content t) g,
-         with_cache s (lru_mutate ch1 ck (fun t0 => set_globals t0 g)) false)
+         with_cache s (if rebind then lru_mutate ch1 ck (fun t0 => set_globals t0 g) else ch1) false)
   end.
 
 Definition step (c : cfg) (s : st) (o : op) : obs * st :=
   match o with
-  | Load name ns g async => cached_load c s name ns g async
+  | Load name ns g async via =>
+      (* a partial renders in the including template's context: its own bound
+         globals are not observed (0), and are not re-bound on a hit *)
+      cached_load c s name ns (if via then 0%N else g) async (negb via)
   | Modify k content =>
       (Quiet, {| cache := cache s;
                  store := dict_set k (content, next_ver s) (store s);
@@ -164,7 +170,8 @@ Fixpoint final (c : cfg) (s : st) (ops : list op) : st :=
     with. *)
 Definition uncached_step (c : cfg) (s : st) (o : op) : obs * st :=
   match o with
-  | Load name ns g async =>
+  | Load name ns g0 async via =>
+      let g := if via then 0%N else g0 in
       match uncached_load c s name ns g async with
       | (Some t, fn) => (Loaded (t_content t) (t_globals t), with_cache s (cache s) fn)
       | (None, fn) => (NotFound, with_cache s (cache s) fn)
